@@ -240,7 +240,15 @@ where
         match engine.open_inner().await {
             Ok(_) => Ok(engine),
             Err(error) => {
-                match engine.close_connection(None).await {
+                // A frame other than open (or close) in place of the open is illegal in this
+                // state: the close says so
+                let close_error = match &error {
+                    OpenError::IllegalState => {
+                        Some(definitions::Error::new(AmqpError::IllegalState, None, None))
+                    }
+                    _ => None,
+                };
+                match engine.close_connection(close_error).await {
                     Ok(_) => Err(error),
                     Err(error) => match error {
                         ConnectionInnerError::TransportError(e) => {
